@@ -5,8 +5,11 @@
     Coquelicot's Riemann integral by [C07_poly_int_is_RInt].
     Claim: the polynomial clauses are COMPLETE for trapz (every n >= 1), for Romberg with 1 <= k <= K0 = 12 levels
     and for the Gauss-Legendre table (degree <= 19, to 1e-15); linearity / sign change / empty interval are proved
-    for all three rules; the smooth-integrand error clauses (h^2 bound, Romberg
-    "of the order of eps") are NOT theorems (oracle only). *)
+    for all three rules; the smooth-integrand h^2 error bound (b-a)h^2/12 max|f''| of the trapezoid rule IS a theorem
+    (C07_trapz_error_bound and its variants at the end of this file, sharp by C07_trapz_error_bound_sharp; also for the
+    sampled rule on a non-uniform grid, and the Simpson-level bound for Romberg with 2 levels); Romberg's
+    "error of the order of eps" clause is NOT a theorem (oracle only; false in general, see
+    C07_romberg_early_stop_spurious). *)
 From Coq Require Import Reals List ZArith QArith Lra.
 From Coquelicot Require Import Coquelicot.
 From Compute Require Import Base.Ops Base.ListMat Model.Quad Spec.Quad Generated.quad_tables
@@ -239,3 +242,131 @@ Theorem C07_model_is_source_trapezoid :
   forall (T : Type) (O : Ops T) (y : list T) (x : option (list T)) (dx : option T),
     (Z.of_nat (length y) <= 1152921504606846976)%Z -> src_trapezoid O y x dx = trapezoid O y x dx.
 Proof. exact @tiea_trapezoid. Qed.
+
+(** ** error bound of the trapezoid rule for smooth integrands (the property's "(b−a)h²/12·max|f″|" clause).
+    About the same model term [trapz RO] that the Tie-A theorem [C07_model_is_source_trapz] and the bitwise correspondence
+    tie to the code; the integral is Coquelicot's [RInt]; [is_derive] is the (two-sided) Fréchet derivative on R. *)
+From Compute Require Import Spec.QuadBound Proofs.C07_bound Proofs.C07_bound_samples.
+Open Scope R_scope.
+(** f twice differentiable on [a,b] with |f″| <= M there: |trapz − ∫_a^b f| <= (b−a)·h²/12·M, h = (b−a)/n, every n >= 1.
+    (Continuity of f″ is not needed, so it is not assumed: the statement with that extra hypothesis follows a fortiori.) *)
+Theorem C07_trapz_error_bound :
+  forall (f f' f'' : R -> R) (a b : R) (n : nat) (M : R),
+    a <= b -> (1 <= n)%nat ->
+    (forall x, a <= x <= b -> is_derive f x (f' x) /\ is_derive f' x (f'' x)) ->
+    (forall x, a <= x <= b -> Rabs (f'' x) <= M) ->
+    Rabs (trapz RO f a b n - RInt f a b) <= (b - a) * ((b - a) / INR n) ^ 2 / 12 * M.
+Proof. exact trapz_error_bound. Qed.
+(** the hypotheses are satisfiable: f = f′ = f″ = exp on [0,1], M = e, every n >= 1; ∫ = e − 1 *)
+Example C07_example_trapz_error_bound_exp :
+  forall n : nat, (1 <= n)%nat ->
+    Rabs (trapz RO exp 0 1 n - (exp 1 - 1)) <= (1 - 0) * ((1 - 0) / INR n) ^ 2 / 12 * exp 1.
+Proof. exact trapz_error_bound_exp. Qed.
+(** weaker hypotheses: f continuous on [a,b], twice differentiable with |f″| <= M on the OPEN interval only
+    (covers e.g. x^(5/2) on [0,1] or integrands whose derivative does not exist at an end point) *)
+Theorem C07_trapz_error_bound_open :
+  forall (f f' f'' : R -> R) (a b : R) (n : nat) (M : R),
+    a <= b -> (1 <= n)%nat ->
+    (forall x, a <= x <= b -> continuous f x) ->
+    (forall x, a < x < b -> is_derive f x (f' x) /\ is_derive f' x (f'' x)) ->
+    (forall x, a < x < b -> Rabs (f'' x) <= M) ->
+    Rabs (trapz RO f a b n - RInt f a b) <= (b - a) * ((b - a) / INR n) ^ 2 / 12 * M.
+Proof. exact trapz_error_bound_open. Qed.
+(** either orientation of the limits (b <= a by the swap theorem): the bound is |b−a|·h²/12·M *)
+Theorem C07_trapz_error_bound_any_orientation :
+  forall (f f' f'' : R -> R) (a b : R) (n : nat) (M : R),
+    (1 <= n)%nat ->
+    (forall x, Rmin a b <= x <= Rmax a b -> continuous f x) ->
+    (forall x, Rmin a b < x < Rmax a b -> is_derive f x (f' x) /\ is_derive f' x (f'' x)) ->
+    (forall x, Rmin a b < x < Rmax a b -> Rabs (f'' x) <= M) ->
+    Rabs (trapz RO f a b n - RInt f a b) <= Rabs (b - a) * ((b - a) / INR n) ^ 2 / 12 * M.
+Proof. exact trapz_error_bound_any. Qed.
+(** the constant 1/12 cannot be improved: for f(x) = x² (f″ = 2 = M) the error EQUALS the bound, for every a, b, n >= 1 *)
+Theorem C07_trapz_error_bound_sharp :
+  forall (a b : R) (n : nat),
+    (1 <= n)%nat ->
+    trapz RO (fun x => x * x) a b n - RInt (fun x => x * x) a b = (b - a) * ((b - a) / INR n) ^ 2 / 12 * 2.
+Proof. exact trapz_error_bound_sharp. Qed.
+(** consequence: the rule converges to the integral as the number of panels grows (either orientation) *)
+Theorem C07_trapz_converges :
+  forall (f f' f'' : R -> R) (a b M : R),
+    (forall x, Rmin a b <= x <= Rmax a b -> continuous f x) ->
+    (forall x, Rmin a b < x < Rmax a b -> is_derive f x (f' x) /\ is_derive f' x (f'' x)) ->
+    (forall x, Rmin a b < x < Rmax a b -> Rabs (f'' x) <= M) ->
+    is_lim_seq (fun n => trapz RO f a b n) (RInt f a b).
+Proof. exact trapz_converges. Qed.
+(** one panel: the error of a single trapezoid is at most M·(d−c)³/12 *)
+Theorem C07_trapezoid_panel_error_bound :
+  forall (f f' f'' : R -> R) (c d M : R),
+    c <= d ->
+    (forall x, c <= x <= d -> continuous f x) ->
+    (forall x, c < x < d -> is_derive f x (f' x)) ->
+    (forall x, c < x < d -> is_derive f' x (f'' x)) ->
+    (forall x, c < x < d -> Rabs (f'' x) <= M) ->
+    Rabs ((f d + f c) / 2 * (d - c) - RInt f c d) <= M * (d - c) ^ 3 / 12.
+Proof. exact panel_bound. Qed.
+(** pointwise: f minus its chord on [c,d] is at most M/2·(t−c)(d−t) (Rolle twice) *)
+Theorem C07_chord_interpolation_error :
+  forall (f f' f'' : R -> R) (c d t M : R),
+    c < t < d ->
+    (forall x, c <= x <= d -> continuous f x) ->
+    (forall x, c < x < d -> is_derive f x (f' x)) ->
+    (forall x, c < x < d -> is_derive f' x (f'' x)) ->
+    (forall x, c < x < d -> Rabs (f'' x) <= M) ->
+    Rabs (f t - chord c (f c) d (f d) t) <= M / 2 * ((t - c) * (d - t)).
+Proof. exact chord_error. Qed.
+(** the sampled rule on the samples y_i = f(x_i) of a smooth f, strictly increasing abscissae (uniform or not) with
+    spacings <= H: |trapezoid − ∫ f| <= (x_last − x_first)·H²/12·M *)
+Theorem C07_trapezoid_samples_error_bound :
+  forall (f f' f'' : R -> R) (x0 : R) (xs : list R) (M H : R),
+    increasing (x0 :: xs) -> spacing_le H (x0 :: xs) ->
+    (forall t, x0 <= t <= last (x0 :: xs) x0 -> continuous f t) ->
+    (forall t, x0 < t < last (x0 :: xs) x0 -> is_derive f t (f' t) /\ is_derive f' t (f'' t)) ->
+    (forall t, x0 < t < last (x0 :: xs) x0 -> Rabs (f'' t) <= M) ->
+    exists v, trapezoid RO (map f (x0 :: xs)) (Some (x0 :: xs)) None = Some v /\
+              Rabs (v - RInt f x0 (last (x0 :: xs) x0)) <= (last (x0 :: xs) x0 - x0) * H ^ 2 / 12 * M.
+Proof. exact trapezoid_error_bound. Qed.
+(** satisfiable: exp sampled at 0, 1/4, 1/2, 1 (non-uniform), H = 1/2, M = e *)
+Example C07_example_trapezoid_samples_error_bound_exp :
+  exists v, trapezoid RO (map exp [0; 1/4; 1/2; 1]) (Some [0; 1/4; 1/2; 1]) None = Some v /\
+            Rabs (v - (exp 1 - 1)) <= (1 - 0) * (1/2) ^ 2 / 12 * exp 1.
+Proof. exact trapezoid_error_bound_exp. Qed.
+(** constant-spacing form of the sampled rule (dx given, or 1 when neither x nor dx is): samples y_i = f(a + i·d), i = 0..n *)
+Theorem C07_trapezoid_spacing_error_bound :
+  forall (f f' f'' : R -> R) (a : R) (n : nat) (dx : option R) (M : R),
+    let d := match dx with Some d => d | None => 1 end in
+    0 <= d ->
+    (forall t, a <= t <= a + INR n * d -> continuous f t) ->
+    (forall t, a < t < a + INR n * d -> is_derive f t (f' t) /\ is_derive f' t (f'' t)) ->
+    (forall t, a < t < a + INR n * d -> Rabs (f'' t) <= M) ->
+    exists v, trapezoid RO (map (fun i => f (a + INR i * d)) (seq 0 (S n))) None dx = Some v /\
+              Rabs (v - RInt f a (a + INR n * d)) <= (INR n * d) * d ^ 2 / 12 * M.
+Proof. exact trapezoid_dx_error_bound. Qed.
+Example C07_example_trapezoid_spacing_error_bound_exp :
+  exists v, trapezoid RO (map (fun i => exp (0 + INR i * (1/4))) (seq 0 5)) None (Some (1/4)) = Some v /\
+            Rabs (v - (exp 1 - 1)) <= (INR 4 * (1/4)) * (1/4) ^ 2 / 12 * exp 1.
+Proof. exact trapezoid_dx_error_bound_exp. Qed.
+Close Scope R_scope.
+
+(** ** Simpson level: Romberg with a budget of 2 levels (any eps: the stopping test is not reached) is Simpson's rule, and
+    for f with a fourth derivative bounded by M on (a,b) its error is at most (b−a)·h⁴/180·M, h = (b−a)/2 *)
+From Compute Require Import Proofs.C07_bound_simpson.
+Open Scope R_scope.
+Theorem C07_romberg2_is_simpson :
+  forall (f : R -> R) (a b eps : R),
+    romberg RO f a b eps 2 = Some ((b - a) / 6 * (f a + 4 * f ((a + b) / 2) + f b)).
+Proof. exact romberg2_simpson. Qed.
+Theorem C07_romberg2_error_bound :
+  forall (f f1 f2 f3 f4 : R -> R) (a b eps M : R),
+    a <= b ->
+    (forall x, a <= x <= b -> continuous f x) ->
+    (forall x, a < x < b -> is_derive f x (f1 x) /\ is_derive f1 x (f2 x) /\ is_derive f2 x (f3 x) /\ is_derive f3 x (f4 x)) ->
+    (forall x, a < x < b -> Rabs (f4 x) <= M) ->
+    exists r, romberg RO f a b eps 2 = Some r /\ Rabs (r - RInt f a b) <= (b - a) * ((b - a) / 2) ^ 4 / 180 * M.
+Proof. exact romberg2_error_bound. Qed.
+(** satisfiable: exp on [0,1], M = e *)
+Example C07_example_romberg2_error_bound_exp :
+  forall eps : R, exists r, romberg RO exp 0 1 eps 2 = Some r /\
+                            Rabs (r - (exp 1 - 1)) <= (1 - 0) * ((1 - 0) / 2) ^ 4 / 180 * exp 1.
+Proof. exact romberg2_error_bound_exp. Qed.
+Close Scope R_scope.
